@@ -86,9 +86,9 @@ Lemma step_approve_inv w c role id w' :
                  (mkApproval id c (w_now w) (w_delay w) (has_role (w_roles w) c (timelocked (b_role b))) :: w_approvals w)
                  (w_execs w) (w_created w).
 Proof.
-  cbn [step]. unfold rbind. destruct (live w id) eqn:El; [|discriminate].
-  apply live_ok in El as [Hg Ho].
+  cbn [step]. destruct (get w id) as [a|] eqn:Hg; [|discriminate].
   destruct (b_role a =? role) eqn:Er; cbn [negb]; [|discriminate]. apply Z.eqb_eq in Er.
+  destruct (b_open a) eqn:Ho; cbn [negb]; [|discriminate].
   destruct (has_role (w_roles w) c (timelocked role)) eqn:Eh; cbn [negb]; [|discriminate].
   destruct (b_approved a) eqn:Ea; [discriminate|].
   destruct (b_approver a =? 0) eqn:Ep; cbn [negb]; [|discriminate]. apply Z.eqb_eq in Ep.
@@ -102,8 +102,8 @@ Lemma step_cancel_inv w c id w' :
     w' = with_bufs w (set_nth (w_bufs w) (Z.to_nat id)
            (mkBuf false (b_role b) (b_ix b) (b_approved b) (b_approver b) (b_approved_at b) (b_napprove b))).
 Proof.
-  cbn [step]. destruct (has_role (w_roles w) c ROLE_ADMIN) eqn:Eh; cbn [negb]; [|discriminate].
-  unfold rbind. destruct (live w id) eqn:El; [|discriminate]. apply live_ok in El as [Hg Ho].
+  cbn [step]. unfold rbind. destruct (live w id) eqn:El; [|discriminate]. apply live_ok in El as [Hg Ho].
+  destruct (has_role (w_roles w) c ROLE_ADMIN) eqn:Eh; cbn [negb]; [|discriminate].
   intro H. inv H. exists a. auto.
 Qed.
 
@@ -119,8 +119,8 @@ Lemma step_execute_inv w c id w' :
                          (has_role (w_roles w) (b_approver b) (timelocked (b_role b))) :: w_execs w)
                  (w_created w).
 Proof.
-  cbn [step]. destruct (has_role (w_roles w) c ROLE_KEEPER) eqn:Eh; cbn [negb]; [|discriminate].
-  unfold rbind. destruct (live w id) eqn:El; [|discriminate]. apply live_ok in El as [Hg Ho].
+  cbn [step]. unfold rbind. destruct (live w id) eqn:El; [|discriminate]. apply live_ok in El as [Hg Ho].
+  destruct (has_role (w_roles w) c ROLE_KEEPER) eqn:Eh; cbn [negb]; [|discriminate].
   destruct (b_approver a =? 0) eqn:Ep; [discriminate|]. apply Z.eqb_neq in Ep.
   destruct (has_role (w_roles w) (b_approver a) (timelocked (b_role a))) eqn:Er; cbn [negb]; [|discriminate].
   destruct (is_executable (b_approved a) (b_approved_at a) (w_delay w) (w_now w)) eqn:Ee; cbn [negb]; [|discriminate].
@@ -560,8 +560,8 @@ Lemma approve_twice_rejected w c role id w' c2 role2 :
   step w (TApprove c role id) = Ok w' -> exists e, step w' (TApprove c2 role2 id) = Err e.
 Proof.
   intro H. apply step_approve_inv in H as (x & Hx & Ho & Hrl & Hh & Hna & Hp & Hc & ->).
-  cbn [step]. unfold rbind, live. rewrite get_getl. cbn [w_bufs]. rewrite get_getl in Hx.
-  rewrite (getl_set_eq _ _ _ _ Hx). cbn [b_open b_role b_approved].
+  cbn [step]. rewrite get_getl. cbn [w_bufs]. rewrite get_getl in Hx.
+  rewrite (getl_set_eq _ _ _ _ Hx). cbn [b_open b_role b_approved negb].
   destruct (negb (b_role x =? role2)); [eauto|].
   cbn [w_roles]. destruct (negb (has_role (w_roles w) c2 (timelocked role2))); eauto.
 Qed.
@@ -592,10 +592,10 @@ Lemma closed_rejects w id b o :
   (exists c, o = TExecute c id) \/ (exists c r, o = TApprove c r id) \/ (exists c, o = TCancel c id) ->
   exists e, step w o = Err e.
 Proof.
-  intros Hg Hc [[c ->]|[[c [r ->]]|[c ->]]]; cbn [step]; unfold rbind, live; rewrite Hg, Hc.
-  - destruct (negb (has_role (w_roles w) c ROLE_KEEPER)); eauto.
+  intros Hg Hc [[c ->]|[[c [r ->]]|[c ->]]]; cbn [step]; unfold rbind, live; rewrite Hg, ?Hc.
   - eauto.
-  - destruct (negb (has_role (w_roles w) c ROLE_ADMIN)); eauto.
+  - destruct (negb (b_role b =? r)); cbn; eauto.
+  - eauto.
 Qed.
 
 Lemma cancel_or_execute_closes w o w' id :
